@@ -28,7 +28,11 @@ every prefix as a case of its own) observes the queries after every history with
 multiplying the alphabet (the Lean theorem `pure_queries` shows they do not change the state;
 the random histories interleave them).
 
-Outputs, one per operation: reg -> None, disp -> [[ids called], returned event stopped, args_ok],
+With `"config": "set" | "lazy"` the history also involves an `ApplicationConfig` (see "registration through the
+configuration" below): `["cfgset"]` hands the caller's dispatcher to `config.set_event_dispatcher`; an operation that
+ends with `"c"` goes through the configuration (`reg`: `config.add_event_listener`, the others: on `config.dispatcher`).
+
+Outputs, one per operation: reg -> None, cfgset -> None, disp -> [[ids called], returned event stopped, args_ok],
 has -> bool, get(e) -> [ids], get() -> {"d": [[event, [ids]], ...]} sorted by event, prio -> int|None,
 {"raised": class name} for an exception.
 
@@ -71,7 +75,13 @@ LEVEL_NOTE = ("Trusted: Lean kernel + propext/Quot.sound/Classical.choice, the h
               "for one event - the hypothesis under which a dispatch calls each LISTENER once and get_listener_priority "
               "is determined (dispatch_each_once_decided, query_get_priority_decided) - is decided by the model on the "
               "log of every generated history (answer field wf.reg_once, theorem reg_once_decides) and compared with "
-              "what the history says (both answers occur).")
+              "what the history says (both answers occur). Registration through the configuration (ApplicationConfig."
+              "set_event_dispatcher / add_event_listener / .dispatcher) is modelled with the caller's dispatcher object, the one "
+              "the configuration creates when it has none, and the reference the configuration holds "
+              "(Model/ConfigDispatcher.lean, entry c12.cfgrun, compared with the real objects on every such history): "
+              "config_handed_over proves for EVERY number of listeners on the dispatcher at hand-over and every later "
+              "interleaving that the history is the same history on one dispatcher, so all order theorems apply "
+              "(config_handed_over_spec).")
 LEAN_MODULES = ["Clikit.Props.C12"]
 REQUIRED_THEOREMS = ["Clikit.Props.C12." + n for n in (
     "specOrder_perm", "specOrder_mem", "specOrder_sorted", "specOrder_stable", "specOrder_unique",
@@ -81,7 +91,9 @@ REQUIRED_THEOREMS = ["Clikit.Props.C12." + n for n in (
     "query_get_priority", "query_get_priority_unique", "pure_queries", "specRun_acceptable",
     "run_eq_specRun", "cache_inv_total", "reg_once_decides", "dispatch_each_once_decided",
     "query_get_priority_decided", "custom_event_faithful", "dispatch_budget_spec", "dispatch_budget_zero",
-    "dispatch_budget_large", "registration_called_per_registration")]
+    "dispatch_budget_large", "registration_called_per_registration",
+    # registration through ApplicationConfig (Model/ConfigDispatcher.lean)
+    "crun_caller", "config_handed_over", "config_handed_over_spec", "config_lazy_first")]
 RULE = ("histories over {register(2 events x 3 priorities x stops?), dispatch(3 events), get_listeners(3 events | none)} "
         "enumerated exhaustively: quick - every history up to length 4, and up to length 3 with dispatches of an "
         "already stopped event; thorough - every history up to length 4, every history of length 5 up to swapping "
@@ -92,13 +104,21 @@ RULE = ("histories over {register(2 events x 3 priorities x stops?), dispatch(3 
         "(thorough 4) with a dispatch of a user event that reports itself stopped after 1 or 2 listener calls; "
         "plus every history up to length 4 (thorough 5) over {register a new listener, register AGAIN the oldest / the "
         "newest listener (3 priorities; the newest also for the other event), dispatch, get_listeners} that contains "
-        "a repeated registration; "
+        "a repeated registration; plus REGISTRATION THROUGH THE CONFIGURATION: a dispatcher holding 0, 1 or 2 "
+        "listeners is handed to ApplicationConfig.set_event_dispatcher, then every history up to length 3 (thorough 4) "
+        "over {config.add_event_listener (3 priorities; one that stops), add_listener on the caller's object, dispatch "
+        "and get_listeners on the caller's object and on config.dispatcher} with at least one registration through the "
+        "configuration, and the same histories without a dispatcher of the caller's (the configuration creates one at "
+        "the first add_event_listener); "
         "each followed by the pure queries (has_listeners x 4, "
         "get_listener_priority x 2 events x every listener and a stranger); plus seeded random histories up to "
         "length 40 over the full alphabet with queries interleaved, priorities drawn per case from a wider pool, "
         "default-priority registrations, dispatch without an event object and with all the event classes above "
         "(budgets 0..4), and in half of the cases a share (15 % / 40 %) of the registrations re-using a callable "
-        "that is already registered (same function object / an equal bound method of the same owner); a case is non-trivial when some "
+        "that is already registered (same function object / an equal bound method of the same owner); a quarter of the "
+        "random histories get a configuration: the dispatcher is handed over at the start (empty), after one of the first "
+        "registrations or anywhere, and the later operations are made through the configuration (add_event_listener / "
+        "on config.dispatcher) or on the caller's object at random (15 % of them: no dispatcher of the caller's at all); a case is non-trivial when some "
         "dispatch/get_listeners sees an event with >= 2 registrations; distinct = distinct history")
 TRUSTED_BASE = [
     "Lean 4.33 kernel; axioms propext, Classical.choice, Quot.sound only (audited per theorem on every run)",
@@ -107,9 +127,15 @@ TRUSTED_BASE = [
     "tools/genparts/c12.py: ast-based extraction of the sort key lambda and of the default priority (Gen/C12.lean)",
     "harness/props/c12.py: recording listeners (function objects and bound methods of owner objects), the user event classes (ForwardingEvent, OwnFlagEvent, BudgetEvent), canonicalisation (listener objects -> ids, get_listeners() dict compared as a mapping)",
     "CPython: dict insertion order, stability of sorted()",
+    "lean/Clikit/Model/ConfigDispatcher.lean: hand-written model of ApplicationConfig.set_event_dispatcher / "
+    "add_event_listener / dispatcher (object identity as a three-valued reference); sampled by the correspondence (c12.cfgrun)",
 ]
 ASSUMPTIONS = [
     "listeners do not raise and do not call back into the dispatcher",
+    "a dispatcher handed to ApplicationConfig.set_event_dispatcher, the object config.dispatcher hands out and the object "
+    "config.add_event_listener registers on are ONE dispatcher: 'the listeners registered so far' are those registered "
+    "through any of these references, and a dispatch on any of them must call them (histories hand the dispatcher over "
+    "once, before the first registration through the configuration; or never, and then use only the configuration)",
     "a callable registered n times for an event counts as n listeners ('each once' = one call per registration, at the "
     "rank of that registration); get_listener_priority of a callable registered for one event under several priorities "
     "may answer any of them ('once per event' is decided by the model on every history - wf.reg_once - and compared "
@@ -311,14 +337,105 @@ def _random_case(rng):
     return {"ops": ops, "probe": rng.random() < 0.3}
 
 
+# --------------------------------------------------------------------------- registration through the configuration
+# An application author seldom talks to the dispatcher alone: the dispatcher is handed to the configuration
+# (`ApplicationConfig.set_event_dispatcher(d)`), listeners are registered with `config.add_event_listener(...)`, the
+# application dispatches on `config.dispatcher`.  `"config": "set"`: the caller creates the dispatcher, registers the
+# listeners that stand before the `["cfgset"]` operation on it (0, 1, 2, .. of them), hands it over, and goes on:
+# operations that end with "c" go THROUGH the configuration (`reg`: config.add_event_listener; everything else: on
+# `config.dispatcher`), the others on the object the caller created.  `"config": "lazy"`: the caller creates no
+# dispatcher, the configuration makes one at the first add_event_listener; every operation goes through it.
+# The statement is the same: the dispatcher handed over / handed out is ONE dispatcher, so a dispatch on either
+# reference calls exactly the listeners registered so far through either reference.
+SCOPE_CFG = {"quick": 3, "thorough": 4}
+CFG_PRE = (0, 1, 2)
+
+
+def via_config(o):
+    return len(o) > 1 and o[-1] == "c"
+
+
+def plain_op(o):
+    return list(o[:-1]) if via_config(o) else list(o)
+
+
+def _config_histories(tier):
+    """dispatchers holding 0, 1, 2 listeners when handed to the configuration, then every history up to the scope over
+    {config.add_event_listener (3 priorities; one that stops), add_listener on the object, dispatch and get_listeners
+    on the object and on config.dispatcher} that registers through the configuration at least once; and the same
+    without a dispatcher of the caller's (created lazily by the configuration)"""
+    letters = [("reg", 0, p, False, "c") for p in PRIOS] + [("reg", 0, 0, True, "c"), ("reg", 0, 0, False),
+               ("disp", 0, "fresh"), ("disp", 0, "fresh", "c"), ("get", 0), ("get", 0, "c")]
+    for pre in CFG_PRE:
+        for n in range(1, SCOPE_CFG[tier] + 1):
+            for seq in itertools.product(letters, repeat=n):
+                if not any(o[0] == "reg" and via_config(o) for o in seq):
+                    continue
+                yield _materialise_cfg([("reg", 0, 0, False)] * pre + [("cfgset",)] + list(seq), "set")
+    lazy = [o for o in letters if via_config(o)]
+    for n in range(1, SCOPE_CFG[tier] + 1):
+        for seq in itertools.product(lazy, repeat=n):
+            if seq[0][0] == "reg":
+                yield _materialise_cfg(list(seq), "lazy")
+
+
+def _materialise_cfg(seq, mode):
+    ops, k = [], 0
+    for o in seq:
+        if o[0] == "reg":
+            ops.append(["reg", o[1], o[2], o[3], k] + (["c"] if via_config(o) else []))
+            k += 1
+        else:
+            ops.append(list(o))
+    return {"ops": ops, "probe": True, "config": mode}
+
+
+def _random_config(rng, case):
+    """a random history turned into one with a configuration: the dispatcher is handed over at a random position
+    (often at the very start - an empty dispatcher - or right after the first registrations), later operations go
+    through the configuration or on the caller's object at random"""
+    ops = case["ops"]
+    if rng.random() < 0.15:
+        first = ["reg", rng.choice(REG_EVENTS), rng.choice(PRIOS), False, 1 + max([o[4] for o in ops if o[0] == "reg"] + [-1]), "c"]
+        rest = [o + ["c"] if (o[0] != "reg" or rng.random() < 0.7) else o for o in ops]
+        return dict(case, ops=[first] + rest, config="lazy")
+    regs = [i for i, o in enumerate(ops) if o[0] == "reg"]
+    r = rng.random()
+    if r < 0.4 or not regs:
+        at = 0
+    elif r < 0.8:
+        at = regs[min(len(regs) - 1, rng.randint(0, 2))] + 1
+    else:
+        at = rng.randint(0, len(ops))
+    p_c = rng.choice([0.3, 0.6, 0.9])
+    tail = [o + ["c"] if rng.random() < (p_c if o[0] == "reg" else 0.5) else o for o in ops[at:]]
+    return dict(case, ops=ops[:at] + [["cfgset"]] + tail, config="set")
+
+
+def _valid_config(case):
+    mode, ops = case.get("config"), case["ops"]
+    n = sum(1 for o in ops if o[0] == "cfgset")
+    if mode == "set":
+        i = [o[0] for o in ops].index("cfgset") if n == 1 else -1
+        return n == 1 and not any(via_config(o) for o in ops[:i])
+    if mode == "lazy":
+        return n == 0 and bool(ops) and ops[0][0] == "reg" and via_config(ops[0])
+    return n == 0 and not any(via_config(o) for o in ops)
+
+
 def generate(tier, rng):
     # a slice of the random stream first, so that a time-cut exhaustive part never starves it
+    def rand():
+        c = _random_case(rng)
+        return _random_config(rng, c) if rng.random() < 0.25 else c
     for _ in range(RANDOM[tier] // 2):
-        yield _random_case(rng)
+        yield rand()
+    for c in _config_histories(tier):
+        yield c
     for c in _exhaustive(tier):
         yield c
     for _ in range(RANDOM[tier] - RANDOM[tier] // 2):
-        yield _random_case(rng)
+        yield rand()
 
 
 def exhaustive(tier):
@@ -459,7 +576,16 @@ def _note(event):
 
 def run_impl(case):
     from clikit.api.event import Event, EventDispatcher
-    d = EventDispatcher()
+    mode = case.get("config")
+    config = None
+    if mode:
+        from clikit.api.config.application_config import ApplicationConfig
+        config = ApplicationConfig()
+    own = EventDispatcher() if mode != "lazy" else None      # the dispatcher object the caller creates and keeps
+
+    def target(o):
+        """the object an operation is made on: the caller's, or what `config.dispatcher` hands out"""
+        return config.dispatcher if (via_config(o) or own is None) else own
     stops = _stops_of(case)
     rec = []
     listeners, ident = {}, {}
@@ -509,6 +635,18 @@ def run_impl(case):
     for o in expand(case):
         try:
             kind = o[0]
+            if kind == "cfgset":
+                r = config.set_event_dispatcher(own)
+                outs.append(None if r is config else "returned:" + type(r).__name__)
+                continue
+            if kind == "reg" and via_config(o):
+                if o[2] is None:
+                    r = config.add_event_listener(EVENTS[o[1]], L(o[4]))
+                else:
+                    r = config.add_event_listener(EVENTS[o[1]], L(o[4]), o[2])
+                outs.append(None if r is config else "returned:" + type(r).__name__)
+                continue
+            d = target(o)
             if kind == "reg":
                 if o[2] is None:
                     r = d.add_listener(EVENTS[o[1]], L(o[4]))
@@ -565,32 +703,54 @@ def _reg_once(case):
 
 def impl_view(case, obs):
     """what is compared with the model: everything but `args_ok` (the model has no arguments)"""
-    outs = []
+    outs, all_outs = [], []
     for o, out in zip(expand(case), obs["outs"]):
         if o[0] == "disp" and isinstance(out, list):
             out = out[:2]
-        outs.append(out)
-    return {"outs": outs, "spec_agrees": True, "reg_once": _reg_once(case)}
+        all_outs.append(out)
+        if o[0] != "cfgset":
+            outs.append(out)
+    res = {"outs": outs, "spec_agrees": True, "reg_once": _reg_once(case)}
+    if case.get("config"):
+        res["cfg_outs"] = all_outs      # compared with the model of the configuration + two dispatcher objects (c12.cfgrun)
+    return res
 
 
 # --------------------------------------------------------------------------- model
+def _model_op(o, stops):
+    o = plain_op(o)
+    k = o[0]
+    if k == "reg":
+        return ["add", o[1], o[4], stops[o[4]], o[2]]     # priority null: the model uses the default
+    if k == "disp":
+        if ev_limit(o[2]) is not None:
+            return ["dispatchN", o[1], ev_limit(o[2])]
+        # a class implementing the protocol faithfully is the stock flag (custom_event_faithful)
+        return ["dispatch", o[1], o[2] in EV_STOPPED]
+    if k == "prio":
+        return ["prio", o[1], o[2], stops.get(o[2], False)]
+    return o
+
+
 def model_requests(case):
     stops = _stops_of(case)
-    ops = []
-    for o in expand(case):
-        k = o[0]
-        if k == "reg":
-            ops.append(["add", o[1], o[4], stops[o[4]], o[2]])     # priority null: the model uses the default
-        elif k == "disp":
-            if ev_limit(o[2]) is not None:
-                ops.append(["dispatchN", o[1], ev_limit(o[2])])
-            else:       # a class implementing the protocol faithfully is the stock flag (custom_event_faithful)
-                ops.append(["dispatch", o[1], o[2] in EV_STOPPED])
-        elif k == "prio":
-            ops.append(["prio", o[1], o[2], stops.get(o[2], False)])
-        else:
-            ops.append(o)
-    return [{"m": "c12.run", "ops": ops}]
+    # the history as operations on ONE dispatcher (through whichever reference they were made)
+    ops = [_model_op(o, stops) for o in expand(case) if o[0] != "cfgset"]
+    reqs = [{"m": "c12.run", "ops": ops}]
+    mode = case.get("config")
+    if mode:
+        # ... and on the model of the configuration with the caller's and the lazily created dispatcher object
+        # (Model/ConfigDispatcher.lean; theorem config_handed_over: the two answers are the same)
+        cops = []
+        for o in expand(case):
+            if o[0] == "cfgset":
+                cops.append(["set"])
+            elif o[0] == "reg" and via_config(o):
+                cops.append(["cadd"] + _model_op(o, stops)[1:])
+            else:
+                cops.append(["cfg" if (via_config(o) or mode == "lazy") else "own", _model_op(o, stops)])
+        reqs.append({"m": "c12.cfgrun", "ops": cops})
+    return reqs
 
 
 def _canon_outs(outs):
@@ -608,7 +768,11 @@ def model_obs(case, answers):
         return {"model_raised": a.get("err"), "spec": _canon_outs(a.get("spec", []))}
     outs = _canon_outs(a["ok"]["outs"])
     spec = _canon_outs(a["ok"]["spec"])
-    return {"outs": outs, "spec_agrees": _spec_agrees(case, outs, spec), "reg_once": (a.get("wf") or {}).get("reg_once")}
+    res = {"outs": outs, "spec_agrees": _spec_agrees(case, outs, spec), "reg_once": (a.get("wf") or {}).get("reg_once")}
+    if case.get("config"):
+        b = answers[1]
+        res["cfg_outs"] = _canon_outs(b["ok"]) if "ok" in b else {"model_raised": b.get("err")}
+    return res
 
 
 def _spec_agrees(case, outs, spec):
@@ -621,7 +785,7 @@ def _spec_agrees(case, outs, spec):
         return False
     dp = default_priority()
     prios = {}
-    for o, x, y in zip(expand(case), outs, spec):
+    for o, x, y in zip([o for o in expand(case) if o[0] != "cfgset"], outs, spec):
         if o[0] == "reg":
             prios.setdefault((o[1], o[4]), set()).add(dp if o[2] is None else o[2])
         if x != y:
@@ -672,6 +836,13 @@ def oracle(case, obs):
         if isinstance(out, dict) and "raised" in out:
             return "%s raised %s" % (where, out["raised"])
         kind = o[0]
+        if kind == "cfgset":
+            # handing the dispatcher to the configuration registers nothing and changes nothing
+            if out is not None:
+                return "%s: set_event_dispatcher %s" % (where, out)
+            continue
+        if via_config(o):
+            where += " (through the configuration)"
         if kind == "reg":
             if out is not None:
                 return "%s: add_listener %s" % (where, out)
@@ -795,11 +966,57 @@ def bucket(case, obs):
     evs = [o[2] for o in case["ops"] if o[0] == "disp"]
     c = " budget-event" if any(ev_limit(x) is not None for x in evs) else (
         " user-event" if any(x not in ("none", "fresh", "stopped") for x in evs) else "")
-    return "len=%s regs=%s %s%s%s" % (_lenb(len(case["ops"])), nreg if nreg < 4 else "4+", d, c, _again(case))
+    cfg = ""
+    if case.get("config") == "set":
+        at = [o[0] for o in case["ops"]].index("cfgset")
+        held = sum(1 for o in case["ops"][:at] if o[0] == "reg")
+        cfg = " config(handed over with %s listener(s))" % (held if held < 3 else "3+")
+    elif case.get("config"):
+        cfg = " config(lazy)"
+    return "len=%s regs=%s %s%s%s%s" % (_lenb(len(case["ops"])), nreg if nreg < 4 else "4+", d, c, _again(case), cfg)
 
 
 # --------------------------------------------------------------------------- minimisation / search
+def _deconfigured(case):
+    """the same history on one plain dispatcher"""
+    return {"ops": [plain_op(o) for o in case["ops"] if o[0] != "cfgset"], "probe": case.get("probe", False)}
+
+
+def _keep_config(case, cands):
+    """candidates derived from the ops of a history with a configuration stay such histories (when still well-formed)"""
+    for c in cands:
+        if case.get("config"):
+            c = dict(c, config=case["config"])
+        if _valid_config(c):
+            yield c
+
+
 def shrink(case):
+    if case.get("config"):
+        yield _deconfigured(case)
+        ops = case["ops"]
+        for i, o in enumerate(ops):
+            # one operation less through the configuration
+            if via_config(o) and not (case["config"] == "lazy" and i == 0):
+                yield dict(case, ops=ops[:i] + [plain_op(o)] + ops[i + 1:])
+    for c in _keep_config(case, _shrink_ops(case)):
+        yield c
+
+
+def neighbours(case):
+    for c in _keep_config(case, _neighbours_ops(case)):
+        yield c
+    if not case.get("config"):
+        # the same history with the dispatcher handed to a configuration at the start / after each registration, every
+        # later registration made through config.add_event_listener
+        ops = case["ops"]
+        for at in [0] + [i + 1 for i, o in enumerate(ops) if o[0] == "reg"][:3]:
+            for both in (False, True):
+                tail = [o + ["c"] if (o[0] == "reg" or both) else o for o in ops[at:]]
+                yield {"ops": ops[:at] + [["cfgset"]] + tail, "probe": True, "config": "set"}
+
+
+def _shrink_ops(case):
     ops = case["ops"]
     n = len(ops)
     size = n // 2
@@ -820,7 +1037,7 @@ def shrink(case):
             yield {"ops": ops[:i] + [["disp", o[1], simpler]] + ops[i + 1:], "probe": case.get("probe", False)}
 
 
-def neighbours(case):
+def _neighbours_ops(case):
     ops = case["ops"]
     probe = case.get("probe", False)
 
